@@ -357,13 +357,24 @@ func (c *xsyncMapOf[K, V]) DeleteExpired() {
 	ec := c.EvictedCallback()
 	now := time.Now().UnixNano()
 	c.items.Range(func(k K, v itemOf[V]) bool {
-		i := v
-		if i.expiredWithNow(now) {
-			c.items.Delete(k)
-			if ec != nil {
-				evictedItems = append(evictedItems, kvOf[K, V]{k, i.v})
-			}
+		if !v.expiredWithNow(now) {
+			return true
 		}
+		// double check under the bucket lock or delete:
+		// k may have been deleted or may hold a new value by now
+		c.items.Compute(
+			k,
+			func(value itemOf[V], loaded bool) (itemOf[V], bool) {
+				if loaded && !value.expiredWithNow(now) {
+					// k has a new value
+					return value, false
+				}
+				if loaded && ec != nil {
+					evictedItems = append(evictedItems, kvOf[K, V]{k, value.v})
+				}
+				return value, true
+			},
+		)
 		return true
 	})
 	for _, v := range evictedItems {
